@@ -446,6 +446,72 @@ def exhaustive(tier):
         step = 1 if fmt == "bson" or tier != "quick" else 7
         for n in range(0, top, step):
             yield {"mode": "file-sweep", "fmt": fmt, "n": n}
+    for fmt in trees.FORMATS:
+        for kk in ("str", "str-lower", "int", "port", "bytes-b64", "bytes-hex"):
+            for vk in ("str", "int", "bytes-hex", "bytes-b64", "secure", "challenge", "bool", "float"):
+                for place in ("root", "nested", "list-item"):
+                    if tier == "quick" and place != "root" and (kk in ("str-lower", "port") or vk in ("bool", "float", "str")):
+                        continue
+                    yield {"mode": "typed-container", "fmt": fmt, "key": kk, "value": vk, "place": place}
+
+
+def _typed_container_case(case, R):
+    """Typed dicts and lists over every pairing of key / value / item fields whose on-disk form differs from the value held
+    (bytes in both encodings, secrets, digests, numbers from text, transformed strings), root / nested / list item, per format."""
+    cc = sandbox._state["cc"]
+    fmt, kk, vk, place = case["fmt"], case["key"], case["value"], case["place"]
+    R.label("typed-container:" + fmt, "typed-container-key:" + kk)
+    R.nontrivial = kk.startswith("bytes") or vk in ("bytes-hex", "bytes-b64", "secure", "challenge")
+    fields = {"str": lambda: cc.StringField(), "str-lower": lambda: cc.StringField(transform_case="lower"), "int": lambda: cc.IntField(), "port": lambda: cc.PortField(),
+              "bytes-b64": lambda: cc.BytesField(encoding="base64"), "bytes-hex": lambda: cc.BytesField(encoding="hex"), "secure": lambda: cc.SecureField(method="xor"),
+              "challenge": lambda: cc.ChallengeField("sha256"), "bool": lambda: cc.BoolField(), "float": lambda: cc.FloatField()}
+    keys = {"str": ["a", "Key"], "str-lower": ["a", "key"], "int": [1, 20], "port": [80, 443], "bytes-b64": [b"abc", b"\x00\xff"], "bytes-hex": [b"\xde\xad", b"abc"]}[kk]
+    vals = {"str": ["x", "y"], "int": [1, 2], "bytes-hex": [b"\xca\xfe", b""], "bytes-b64": [b"v1", b"\xff"], "secure": ["s1", "secret-two"], "challenge": ["p1", "p2"],
+            "bool": [True, False], "float": [1.5, 2.0]}[vk]
+    schema = cc.Schema()
+    holder = cc.Schema()
+    holder.table = cc.DictField(fields[kk](), fields[vk]())
+    holder.seq = cc.ListField(fields[vk]())
+    holder.tag = cc.StringField(default="t")
+    if place == "root":
+        schema = holder
+        owner = lambda c: c
+    elif place == "nested":
+        schema.a.b = holder
+        owner = lambda c: c.a.b
+    else:
+        schema.rows = cc.ListField(holder)
+        owner = lambda c: c.rows[0]
+    with sandbox.CaseDir() as d:
+        cfg = schema(key_filename=os.path.join(d, "key"))
+        if place == "list-item":
+            cfg.rows = [{}]
+        try:
+            owner(cfg).table = dict(zip(keys, vals))
+            owner(cfg).seq = list(vals)
+        except Exception as exc:
+            R.fail("crash", "typed-container:fill", "filling a typed dict(%s -> %s) raised %r" % (kk, vk, exc))
+            return
+
+        def view(c):
+            def plain(v):
+                return ("digest", v.salt, v.digest) if type(v).__name__ == "DigestValue" else (type(v).__name__, v)
+            return ({(type(k).__name__, k): plain(v) for k, v in owner(c).table.items()}, [plain(v) for v in owner(c).seq])
+        want = view(cfg)
+        dest = os.path.join(d, "typed." + fmt)
+        try:
+            cfg.save(dest, fmt)
+        except Exception:
+            R.label("typed-container:save-refused")  # (e.g. keys this format cannot carry: not a re-load matter)
+            return
+        try:
+            fresh = schema(key_filename=os.path.join(d, "key"))
+            fresh.load(dest, fmt)
+            got, err = view(fresh), None
+        except Exception as exc:
+            got, err = None, exc
+        R.check(got == want, "equal", "typed-container:%s->%s" % (kk, vk),
+                lambda: "dict(%s -> %s) and list(%s) (%s) saved as %s: re-loaded as %r, was %r (%r)" % (kk, vk, vk, place, fmt, got, want, err))
 
 
 def _file_sweep(case, R):
@@ -474,6 +540,8 @@ def _file_sweep(case, R):
 
 
 def run_case(case, R):
+    if case.get("mode") == "typed-container":
+        return _typed_container_case(case, R)
     if case.get("mode") == "file-sweep":
         return _file_sweep(case, R)
     cc = sandbox._state["cc"]
